@@ -344,7 +344,7 @@ func main() {
 	}
 	tier, _ := hx.Args()
 	run := evid.New("C11", tier, "exploration")
-	run.Rule = "machines: dataflow nets from the C02/C04 generators, one machine per opcode (all static opcodes and instances of every dynamic family), every shared-object kind attached to 1..2 processors, Threaded 0..3, WordSize override, ROM data, random architectures, and the same machines with every zero-valued exported scalar field set non-zero by reflection; non-trivial = a machine that was saved and loaded; distinct by name+JSON size"
+	run.Rule = "machines: dataflow nets from the C02/C04 generators, one machine per opcode (all static opcodes and instances of every dynamic family), every shared-object kind attached to 1..2 processors, Threaded 0..3, WordSize override, ROM data, ROM fill levels (code + data below, at and one under 2^O for O=1..4), random architectures, and the same machines with every zero-valued exported scalar field set non-zero by reflection; non-trivial = a machine that was saved and loaded; distinct by name+JSON size"
 	run.Assume = []string{"Conproc.CpID, Arch.Tag and Conproc.SharedHDLOps are overwritten by the generators on every use and are not persistent state",
 		"opcodes are compared by name, dynamic type and equality with the registry object; shared objects by String() and type"}
 	run.Floor = 100
@@ -415,6 +415,33 @@ func main() {
 				m.Shared_constraints = ""
 				bm := gen.NewBM(8, []*procbuilder.Machine{m}, 2, 2, [][2]string{{"p0i0", "i0"}, {"p0i1", "i1"}, {"o0", "p0o0"}, {"o1", "p0o1"}})
 				cs = append(cs, caseT{Name: fmt.Sprintf("misc:thr%d-ws%d-%s", thr, ws, mode), bm: bm, sim: thr == 0 && mode == "ha"})
+			}
+		}
+	}
+	// ROM fill levels: code + ROM data below, exactly at and one under the capacity 2^O
+	for o := uint8(1); o <= 4; o++ {
+		for code := 1; code <= 1<<o; code++ {
+			for _, data := range []int{0, (1 << o) - code, (1 << o) - code - 1} {
+				if data < 0 || (data == 0 && code != 1<<o && code != 1) {
+					continue
+				}
+				m, err := gen.NewMachine(8, 1, 1, 1, 0, o, "ha", []string{"inc", "j", "ro2rri"})
+				if err != nil {
+					continue
+				}
+				var prog []string
+				for i := 0; i < code-1; i++ {
+					prog = append(prog, "inc r0")
+				}
+				prog = append(prog, "j 0")
+				if gen.Assemble(m, prog) != nil {
+					continue
+				}
+				for i := 0; i < data; i++ {
+					m.Data.Vars = append(m.Data.Vars, fmt.Sprintf("%0*b", m.Max_word(), (i*5+3)%(1<<m.Max_word())))
+				}
+				bm := gen.NewBM(8, []*procbuilder.Machine{m}, 1, 1, [][2]string{{"p0i0", "i0"}, {"o0", "p0o0"}})
+				cs = append(cs, caseT{Name: fmt.Sprintf("romfill:O%d-code%d-data%d", o, code, data), bm: bm})
 			}
 		}
 	}
